@@ -200,6 +200,8 @@ func (fd *Client) UpdateTable(ctx context.Context, input *dynamodb.UpdateTableIn
 		previousDefs[name] = typ
 	}
 
+	restoreIndexes := table.SnapshotIndexes()
+
 	if input.AttributeDefinitions != nil {
 		table.SetAttributeDefinition(mapDynamoToTypesAttributeDefinitionSlice(input.AttributeDefinitions))
 	}
@@ -207,6 +209,8 @@ func (fd *Client) UpdateTable(ctx context.Context, input *dynamodb.UpdateTableIn
 	for _, change := range input.GlobalSecondaryIndexUpdates {
 		if err := table.ApplyIndexChange(mapDynamoTotypesGlobalSecondaryIndexUpdate(change)); err != nil {
 			table.AttributesDef = previousDefs
+
+			restoreIndexes()
 
 			return &dynamodb.UpdateTableOutput{
 				TableDescription: mapTypesToDynamoTableDescription(table.Description(tableName)),
